@@ -331,6 +331,22 @@ def f13():
     return bool(np.isfinite(rec).all()), "rebuild demand finite"
 
 
+@trigger("F20", ["C02", "C14"])
+def f20():
+    """overproduction factor when demand falls below the previous production (negative scarcity)"""
+    tb = base_table()
+    cfg = base_cfg(alpha_tau=10, main_inv_dur=5)
+    sim = scen.build_sim(mk_sc(tb, cfg, [], T=5))
+    m = sim.model
+    m.overprod[:] = 1.2
+    m.production = m.X_0 * 1.3          # last production above the demand now addressed
+    before = m.overprod.copy()
+    m.calc_overproduction()
+    want = before + (m.overprod_base - before) * m.overprod_tau
+    ok = bool(np.allclose(m.overprod, want, rtol=1e-12))
+    return ok, f"alpha {before[0]} -> {m.overprod[0]}, documented rule gives {want[0]}"
+
+
 def run_all(props=None, only=None):
     res = {}
     for fid, t in TRIGGERS.items():
